@@ -154,6 +154,9 @@ class C(Check):
         r, _ = run_one('asan', 'c', [('emit', rcp)])
         if r is None or r.status != 'ok' or r.s(0) is None or r.s(0).st != 'ok':
             return False, None
+        if _nonfinite_double(r.s(0).v['t']):
+            self.count('double-overflow-in-result (not judged: the recipe overflows double arithmetic)')
+            return False, None
         v = _value.judge_items([('k', rcp, r.s(0).v['t'], None)], self.seed + 17)
         return v[0][1] == 'diff', (r.s(0).v, v[0][2])
 
@@ -176,9 +179,39 @@ class C(Check):
                 for a in x[1:]:
                     walk(a)
         walk(small)
-        self.violation(dict(clause='value', shape=gen.recipe_str(_shape(small))),
+        key = dict(clause='value', shape=gen.recipe_str(_shape(small)))
+        if 'sym' not in heads and _conjugates(det):
+            # a constant whose value comes out as the complex conjugate: a power of a power was refolded across a negative real base
+            key = dict(clause='value', family='constant-power-of-power-refolded-across-negative-base')
+        self.violation(key,
                        dict(recipe=gen.recipe_str(small), original=gen.recipe_str(rcp), result=val['s'], tree=val['t'], detail=det,
                             program=['(emit %s)' % gen.recipe_str(small)], config='asan'))
+
+
+def _nonfinite_double(t):
+    import struct, math
+    if isinstance(t, list):
+        if t and t[0] in ('RealDouble', 'ComplexDouble'):
+            for h in t[1:]:
+                try:
+                    x = struct.unpack('<d', struct.pack('<Q', int(h, 16)))[0]
+                except (ValueError, TypeError):
+                    continue
+                if math.isinf(x) or math.isnan(x):
+                    return True
+            return False
+        return any(_nonfinite_double(a) for a in t[1:] if isinstance(a, list))
+    return False
+
+
+def _conjugates(det):
+    try:
+        d = det if isinstance(det, dict) else {}
+        a = complex(str(d.get('spec')).replace(' ', '').strip('()'))
+        b = complex(str(d.get('result')).replace(' ', '').strip('()'))
+        return abs(a - b.conjugate()) <= 1e-9 * max(1.0, abs(a)) and abs(a.imag) > 1e-9
+    except Exception:
+        return False
 
 
 def _shape(r):
